@@ -7,6 +7,10 @@ def decode(p):
     try:
         if f[0] == "L":
             return {"kind": "lex", "source": bytes.fromhex(f[1]).decode("utf8", "backslashreplace") if f[1] != "-" else ""}
+        if f[0] == "S":
+            return {"kind": "statement separation under comments",
+                    "reference": bytes.fromhex(f[1]).decode("utf8", "backslashreplace"),
+                    "variant": bytes.fromhex(f[2]).decode("utf8", "backslashreplace"), "tree_of_reference": f[3]}
         return {"kind": "planted " + ("parse" if f[1] == "P" else "runtime") + " error",
                 "source": bytes.fromhex(f[2]).decode("utf8", "backslashreplace"), "offending_token_offset": f[3]}
     except Exception:
@@ -25,14 +29,25 @@ SPEC = dict(
           "random well-formed surroundings; compared: Line/Pos of parser.Error / util.RuntimeError (and, for runtime errors, "
           "that the error's node token starts at that offset) against the model token starting there. On every case the model "
           "side also recomputes the true line/column from the byte offset (all tokens but EOF). "
-          "Non-trivial = a compared token lies on a line > 1."),
+          "sep cases: a comment-free reference program (42 directed token sequences with return, identifier followed by ( or [ on the "
+          "same/next line, infix operators at line ends, ;-free statement sequences, multi-line raw strings; the same with re-drawn line "
+          "breaks; random token sequences) and a variant with comments in its gaps (same-line gap -> block comments without newline; "
+          "newline gap -> trailing # comment, whole-line # or /* */ comments, block comment containing the newline(s), CRLF, extra blank "
+          "lines; comments before the first and after the last token). Rule (decided by the model side from the lexer model's token "
+          "lines): if reference and variant have the same non-comment tokens (kind, value, flags, EOF included) and for every token but "
+          "the first the same answer to 'on the same line as the previous non-comment token?', then parser.Parse must give the same "
+          "canonical tree (node names, token values, children; no positions, no comments) or the same error kind; the reference's tree "
+          "is computed by the real parser and shipped in the payload. hash-comment-column excuses nothing here. "
+          "Non-trivial = a compared token lies on a line > 1 (sep: the variant has a comment and a line break between tokens)."),
     exhaustive="all sequences of the 19 small atoms up to the stated length",
     trusted_base=[
         "lean/Ecal/Model/Lexer.lean is a hand-written port of parser/lexer.go; its agreement with the Go lexer is tested on every run (this correspondence), not proved",
         "unicode.IsNumber is modelled exactly only for ASCII and Latin-1 (irrelevant for positions of the generated inputs)",
         "errors_carry_token_pos: that parser.Error / util.RuntimeError copy Lline/Lpos of the offending token unchanged is checked by the planted-error cases, not proved (parser and interpreter are other properties' models)",
     ],
-    assumptions=["the EOF token has no first character: its (stale) Pos/Lpos are compared between model and code but not against a true position"],
+    assumptions=["sep cases: token lines are monotone along the token sequence, so the same-line-as-previous relation determines every "
+                 "line comparison the parser makes (parser.go: run, ndReturn, ndIdentifier, hasMoreStatements) - by reading, not proved",
+                 "the EOF token has no first character: its (stale) Pos/Lpos are compared between model and code but not against a true position"],
     decode=decode,
 )
 
